@@ -102,6 +102,18 @@ def run(tier, seed, replay=None):
     p, o, dist = viewprog.generate(PID, seed, count, extra=["--maxops", str(maxops)])
     progs.append(p)
     obss.append(o)
+    n_exh = 0
+    if tier == "thorough":
+        # exhaustive sub-space: every root of rank <= 3 with extents 0..3, every operation sequence of length <= 2 with all
+        # in-domain arguments (the driver enumerates it from the extracted dom_op)
+        d = viewprog.workdir(PID)
+        px, ox = os.path.join(d, "prog_x.txt"), os.path.join(d, "obs_x.txt")
+        rc, out, err = core.sh([os.path.join(core.BIN, "driver"), "views-exhaustive", "--maxrank", "3", "--maxext", "3", "--maxlen", "2",
+                                "--prog", px, "--obs", ox], timeout=1800)
+        if rc == 0:
+            progs.append(open(px).read())
+            obss.append(open(ox).read())
+            n_exh = len(core.split_cases(progs[-1]))
     prog_text, obs_text = "".join(progs), "".join(obss)
     impl_text, crashes = core.run_harness(exe, prog_text)
     n_failing = classify_and_report(res, exe, prog_text, obs_text, impl_text, crashes)
@@ -125,6 +137,9 @@ def run(tier, seed, replay=None):
         "observation_lines_compared": obs_text.count("\n"),
         "address_probes": obs_text.count("\nP "),
         "corpus_cases": n_corpus,
+        "exhaustive_subspace_programs": n_exh,
+        "exhaustive_subspace": "rank <= 3, extents 0..3, all operation sequences of length <= 2 with all in-domain arguments "
+                               "(thorough tier only; exhaustive for that sub-space, the rest is sampled)" if n_exh else "not run in this tier",
         "cases_reevaluated_inside_coq_by_vm_compute": n_vm,
         "disagreeing_cases": n_failing,
         "not_exercised": ["taked() for D > 1 (does not compile at the pinned commit)", "broadcasted() (no size; lemma only)",
